@@ -188,6 +188,50 @@ def members_of(rel, cname):
 CLEAR_METHODS = ("clear", "reset", "pushContext", "push_back", "resize")
 
 
+EMPT = r"(?:(?P<neg>!)\s*)?(?P<m>m_\w+)\s*\.\s*empty\s*\(\s*\)\s*(?P<cmp>==\s*false|!=\s*true)?"
+FOREACH_RX = r"for_each\s*\(\s*(m_\w+)\.begin\(\)\s*,\s*\1\.end\(\)\s*,\s*[\w<>:]+\s*\([^()]*(\([^()]*\))?[^()]*\)\s*\)\s*;"
+
+
+def expand_emptiness_guards(text, what):
+    """'if (M.empty() == false) { ...statements that delete the pointees of / clear M... }' (also
+    '!M.empty()', optionally preceded by 'm_p != 0 &&' when the body only walks M) is equivalent to its
+    body for the purpose of 'M is empty afterwards': an empty member needs no clearing.  Accepted ONLY when
+    every member the body touches is the member whose emptiness is tested; anything else fails closed."""
+    out, pos = [], 0
+    rx = re.compile(r"if\s*\(\s*(?:(?P<ptr>m_\w+)\s*!=\s*0\s*&&\s*)?" + EMPT + r"\s*\)\s*\{")
+    while True:
+        m = rx.search(text, pos)
+        if not m:
+            out.append(text[pos:])
+            return "".join(out)
+        if bool(m.group("neg")) == bool(m.group("cmp")):
+            raise AnchorError("%s: emptiness guard not understood: %s" % (what, m.group(0)[:80]))
+        i = m.end() - 1
+        depth = 0
+        for j in range(i, len(text)):
+            if text[j] == "{":
+                depth += 1
+            elif text[j] == "}":
+                depth -= 1
+                if depth == 0:
+                    break
+        else:
+            raise AnchorError(what + ": unbalanced braces after an emptiness guard")
+        body, mem = text[i + 1:j], m.group("m")
+        walked = [x[0] for x in re.findall(FOREACH_RX, body)]
+        inner = re.sub(FOREACH_RX, " ", body)
+        touched = re.findall(r"\b(m_\w+)\s*(?:\.|->)\s*(\w+)\s*\(\s*\)\s*;", inner)
+        left = re.sub(r"\b(m_\w+)\s*(?:\.|->)\s*(\w+)\s*\(\s*\)\s*;|\s", "", inner)
+        if left or any(w != mem for w in walked) or any(n != mem or meth not in ("clear", "reset") for n, meth in touched):
+            raise AnchorError("%s: the block guarded by %s.empty() does more than delete/clear %s: %s" % (
+                what, mem, mem, " ".join(body.split())[:120]))
+        if m.group("ptr") and touched:
+            raise AnchorError("%s: clearing of %s also depends on %s != 0" % (what, mem, m.group("ptr")))
+        out.append(text[pos:m.start()])
+        out.append(" ".join("%s.%s();" % t for t in touched) + " ")     # the body's clearing statements, unguarded
+        pos = j + 1
+
+
 def reset_facts(body, what, allowed_calls):
     """Members cleared/assigned and helper calls made by a reset-like body; every statement must be
     recognised (fail closed). Returns (cleared_in_order, calls)."""
@@ -196,7 +240,7 @@ def reset_facts(body, what, allowed_calls):
     assert b.startswith("{") and b.endswith("}")
     b = b[1:-1]
     cleared, calls = [], []
-    rest = b
+    rest = expand_emptiness_guards(b, what)
     # if (m_x != 0) { m_x->reset(); }  -> a call through a pointer member, not a clearing of the pointer
     def ptr_call(m):
         calls.append("%s->%s" % (m.group(1), m.group(2)))
@@ -421,7 +465,7 @@ def gen_api():
     er = function_body(xt, r"XalanTransformer::EnsureReset::~EnsureReset\s*\(\s*\)\s*\{", "~EnsureReset")
     er_ctx = re.search(r"m_transformer\s*\.\s*m_stylesheetExecutionContext\s*->\s*reset\s*\(\s*\)\s*;", er) is not None
     er_tr = re.search(r"m_transformer\s*\.\s*reset\s*\(\s*\)\s*;", er) is not None
-    left = re.sub(r"m_transformer\s*\.\s*(m_stylesheetExecutionContext\s*->\s*)?reset\s*\(\s*\)\s*;|[\s{}]", "", er)
+    left = re.sub(r"m_transformer\s*\.\s*(m_stylesheetExecutionContext\s*->\s*)?reset\s*\(\s*\)\s*;|\btry\b|\bcatch\s*\(\s*\.\.\.\s*\)|[\s{}]", "", strip_comments(er))
     if left:
         raise AnchorError("~EnsureReset: statement not recognised: " + left[:120])
 
